@@ -255,8 +255,15 @@ func c02(tier string) int {
 					}
 				}
 				// Cross-log replays: every log's checkpoints under every other ID,
-				// plus unknown IDs.
+				// plus unknown IDs. The sources include logs that are configured
+				// nowhere but are validly signed with A's key under origins that
+				// are NEAR A's origin (byte extensions, a prefix, case, spacing):
+				// "a correctly signed checkpoint of a different origin that
+				// shares the same key".
 				all := append(append([]wh.LogCfg{}, logs...), ld)
+				for _, near := range []string{la.Origin + "0", la.Origin + " ", la.Origin + "/x", la.Origin + "\t", la.Origin[:len(la.Origin)-1], strings.ToUpper(la.Origin), " " + la.Origin, la.Origin + ".", strings.Replace(la.Origin, "/", "//", 1)} {
+					all = append(all, wh.LogCfg{Origin: near, Key: la.Key})
+				}
 				ids := []string{}
 				for _, l := range logs {
 					ids = append(ids, l.ID())
